@@ -20,7 +20,7 @@ for pid in ids:
         'engine': 'verus-extract',
         'level_claimed': {'category': c.get('level', 'proof'), 'text': c['level_text'], 'design_ref': c.get('design_ref', f'DESIGN.md section 4, {pid}')},
         'level_note': c['level_note'],
-        'technique': c.get('technique', 'contract-based deductive verification (Verus) of functions extracted from /repo on every run'),
+        'technique': c.get('technique', 'contract-based deductive verification (Verus) of functions extracted from /repo on every run; where a failed clause has a Kani twin (vp/kanitwin.py) its counterexample is replayed on the real code'),
     })
 man['checks'] = checks
 man['not_applicable'] = na
